@@ -660,7 +660,7 @@ fn gen_file(g: &mut FileGen, rng: &mut Rng, includes: &[&str], header: bool, his
     let lines = rng.range(3, 12);
     let mut open_ifs = 0;
     for _ in 0..lines {
-        match rng.below(14) {
+        match rng.below(17) {
             0 | 1 => {
                 // object-like macro
                 g.counter += 1;
@@ -683,8 +683,51 @@ fn gen_file(g: &mut FileGen, rng: &mut Rng, includes: &[&str], header: bool, his
             }
             4 if !pending.is_empty() => {
                 let f = pending.remove(0);
-                out.push_str(&format!("#include \"{}\"", f));
+                // both spellings of the file name (string literal / header name), white space and a comment around it
+                match rng.below(4) {
+                    0 => {
+                        out.push_str(&format!("#include <{}>", f));
+                        hist.add("pp.gen.include_angle");
+                    }
+                    1 => {
+                        out.push_str(&format!("#  include   \"{}\"  // c", f));
+                        hist.add("pp.gen.include_spaced");
+                    }
+                    _ => out.push_str(&format!("#include \"{}\"", f)),
+                }
                 hist.add("pp.gen.include");
+            }
+            14 if open_ifs > 0 => {
+                // `#elif` (wave 6): constant, defined(..) of a known / unknown name, arithmetic
+                let c = match rng.below(5) {
+                    0 => "#elif 1".to_string(),
+                    1 => "#elif 0".to_string(),
+                    2 if !g.macros.is_empty() => format!("#elif defined({})", rng.pick(&g.macros).0),
+                    3 => "#elif !defined(NOT_DEFINED_ZQ) && (0x10 == 16)".to_string(),
+                    _ => "#elif defined NOT_DEFINED_ZQ || 2 > 3".to_string(),
+                };
+                out.push_str(&c);
+                out.push_str(eol);
+                out.push_str(&text_line(g, rng, hist));
+                hist.add("pp.gen.elif");
+            }
+            15 => {
+                // conditions with operators, literals of every base, `defined` in both spellings
+                let c = match rng.below(6) {
+                    0 => "#if (2 > 1) && 1".to_string(),
+                    1 => "#if 010 == 8 && 0x1F != 30".to_string(),
+                    2 if !g.macros.is_empty() => format!("#if defined({}) || 0", rng.pick(&g.macros).0),
+                    3 if !g.macros.is_empty() => format!("#if !defined {}", rng.pick(&g.macros).0),
+                    4 => "#if 0 // off\n#unknown_directive 1.5.5 \"\n#endif\n#if 1".replace('\n', eol),
+                    _ => "#if !0".to_string(),
+                };
+                out.push_str(&c);
+                open_ifs += 1;
+                hist.add("pp.gen.if_expr");
+            }
+            16 => {
+                out.push_str(*rng.pick(&["#pragma warning(disable: 4000)", "#pragma warning(push)", "# pragma once", "#", "# // empty"]));
+                hist.add("pp.gen.pragma_or_null");
             }
             5 => {
                 let c = match rng.below(4) {
